@@ -324,7 +324,7 @@ class Decl:
         self.ops.append(("new", 0))
         self.add_random(0, rng.randrange(1, 6))
         if shape in ("sub", "nested"):
-            self.sub(0, 1, rng.choice([b"pre", b"Sub", b"a"]))
+            self.sub(0, 1, rng.choice([b"pre", b"Sub", b"a", b"Section"]))          # "Section" is as long as "Options"
             self.add_random(0, rng.randrange(0, 3))
 
     def newvar(self):
@@ -563,9 +563,21 @@ def gen_argv(rng, items, decl, valid, nuse=None):
     return [w for w in words if b"\0" not in w]
 
 
+def key_section_collisions(entries):
+    """F-C17k: entries (sec, key, .., item, value) whose lower-case "section:key" is also the lower-case name of a
+    section of the same file.  iniparser keeps headings and entries in ONE dictionary ("pre:b" is the entry b of
+    [pre] and the heading [pre:B]); a heading that follows the entry replaces its value by NULL.
+    Returns {"vars": variables of such entries, "invalid_all_collide": every entry with an invalid value is one}"""
+    secs = set(e[0].lower() for e in entries)
+    hit = [e for e in entries if (e[0] + b":" + e[1]).lower() in secs]
+    bad = [e for e in entries if e[4] is None]
+    return {"vars": sorted(set(e[3].var for e in hit)), "invalid_all_collide": bool(bad) and all(e in hit for e in bad)}
+
+
 def gen_ini(rng, items, decl, valid):
-    """a configuration file for an object in ordinary ini syntax; returns (bytes, expect) where
-    expect = dict var -> value in item order semantics, or 'error' (the reference demands -1), or None (not judged)"""
+    """a configuration file for an object in ordinary ini syntax; returns (bytes, expect, collisions) where
+    expect = dict var -> value in item order semantics, or 'error' (the reference demands -1), or None (not judged)
+    and collisions = key_section_collisions of the entries"""
     entries = []
     expect = {}
     err = False
@@ -650,7 +662,7 @@ def gen_ini(rng, items, decl, valid):
     if rng.random() < 0.3:
         out += [b"[Other]", b"unrelated = 1"]
     text = b"\n".join(out) + b"\n"
-    return text, ("error" if err else expect)
+    return text, ("error" if err else expect), key_section_collisions(entries)
 
 
 def mutate(rng, data):
@@ -773,14 +785,14 @@ def gen_history(rng, hid, quick):
             h.tags.add("parse-valid" if valid else "parse-invalid")
         elif k < 0.5:
             valid = rng.random() < 0.7
-            text, exp = gen_ini(rng, items0, decl, valid)
+            text, exp, coll = gen_ini(rng, items0, decl, valid)
             f = b"gen%d.ini" % len(files)
             files.append(f)
             h.op("file %s %s" % (hx(f), hx(text)))
-            h.op("load 0 %s" % hx(f), ("load", 0, exp))
+            h.op("load 0 %s" % hx(f), ("load", 0, exp, coll))
             h.tags.add("load-generated")
         elif k < 0.62:
-            text, _ = gen_ini(rng, items0, decl, rng.random() < 0.5)
+            text, _, _ = gen_ini(rng, items0, decl, rng.random() < 0.5)
             if rng.random() < 0.4:
                 text = bytes(rng.randrange(256) for _ in range(rng.randrange(0, 300)))
                 h.tags.add("load-random-bytes")
@@ -902,6 +914,69 @@ def aimed_histories(rng, hid0):
     # stale key-value text of a sub-options copy: parse through the sub-options object, save the parent
     h = History(hid, d); hid += 1; out.append(h); h.tags.add("aimed-keyvalue-copy")
     h.parse(1, [b"prog", b"-c", b"cd"]); h.parse(0, [b"prog"]); roundtrip(h, rng, b"kvc.ini"); h.end()
+    # F-C17k: an option "pre:b" and the heading of the nested sub-options "pre:B" share one dictionary slot of iniparser
+    d = Decl.__new__(Decl)
+    d.ops, d.objs, d.nvar, d.rng = [("kv", 0), ("kv", 1), ("new", 2)], {0: [], 1: [], 2: []}, 0, rng
+    d.used_ch, d.used_nm, d.kvs, d.inits, d.kinds, d.shape = {0: set(), 1: set(), 2: set()}, {0: set(), 1: set(), 2: set()}, KV_TABLES, {}, {}, "nested"
+    d.add_typed(2, "int", ord("k"), b"kk", share=False, init=("i0", 0))
+    d.ops.append(("new", 1))
+    d.add_typed(1, "sw", ord("b"), b"b", share=False)
+    d.sub(1, 2, b"B")
+    d.ops.append(("new", 0))
+    d.sub(0, 1, b"pre")
+    d.add_typed(0, "int", ord("i"), b"pre", share=False, init=("i0", 0))          # "Options:pre" is not the section "pre"
+    h = History(hid, d); hid += 1; out.append(h); h.tags.add("aimed-key-section")
+    h.parse(0, [b"prog", b"--pre:b", b"--pre:B:kk", b"7", b"-i", b"3"]); roundtrip(h, rng, b"ks.ini"); h.end()
+    h = History(hid, d); hid += 1; out.append(h); h.tags.add("aimed-key-section")
+    h.parse(0, [b"prog", b"--pre:B:kk", b"8"]); roundtrip(h, rng, b"ks2.ini"); h.end()          # switch 0: nothing to lose
+    h = History(hid, d); hid += 1; out.append(h); h.tags.add("aimed-key-section")
+    coll = {"vars": [1], "invalid_all_collide": False}
+    h.op("file %s %s" % (hx(b"ks3.ini"), hx(b"[pre]\nb = 4\n[pre:B]\nkk = 7\n[Options]\npre = 5\n")))
+    h.op("load 0 %s" % hx(b"ks3.ini"), ("load", 0, {1: 4, 0: 7, 2: 5}, coll))        # heading behind the entry: its value is lost
+    h.op("file %s %s" % (hx(b"ks4.ini"), hx(b"[pre:B]\nkk = 9\n[pre]\nb = 6\n")))
+    h.op("load 0 %s" % hx(b"ks4.ini"), ("load", 0, {1: 6, 0: 9}, coll))               # heading first: the entry wins
+    h.op("file %s %s" % (hx(b"ks5.ini"), hx(b"[pre]\nb = maybe\n[PRE:b]\nkk = 1\n")))
+    h.op("load 0 %s" % hx(b"ks5.ini"), ("load", 0, "error", {"vars": [1], "invalid_all_collide": True}))
+    h.op("file %s %s" % (hx(b"ks6.ini"), hx(b"[pre:b]\nkk = 1\n[pre]\nb = maybe\n")))
+    h.op("load 0 %s" % hx(b"ks6.ini"), ("load", 0, "error", {"vars": [1], "invalid_all_collide": True}))
+    h.end()
+    # F-C17l: no option with a short name: sc_options_parse never writes to the optstring it hands to getopt_long
+    longonly = [("sw", 0, b"flag", None), ("int", 0, b"num", ("i0", 0))]
+    for fill in (0, 43, 45, 58):
+        h = History(hid, flat(longonly)); hid += 1; out.append(h); h.tags.add("aimed-optstring")
+        h.parse(0, [b"prog", b"input.txt", b"--flag", b"--num", b"5", b"more"])
+        h.op("dirty %d" % fill); h.parse(0, [b"prog", b"input.txt", b"--flag", b"--num", b"6", b"more"])
+        h.op("dirty %d" % fill); h.parse(0, [b"prog", b"--num=7", b"--", b"--flag"])
+        h.parse(0, [b"prog", b"in", b"--flag"]); roundtrip(h, rng, b"os.ini"); h.end()
+        # the same stack content in front of an object WITH short names changes nothing
+        h = H(); h.tags.add("aimed-optstring")
+        h.op("dirty %d" % fill); h.parse(0, [b"prog", b"input.txt", b"-x", b"--int", b"5", b"more", b"-qq"])
+        h.op("dirty %d" % fill); h.parse(0, [b"prog", b"input.txt", b"-Z", b"--int", b"5"]); h.end()
+    # section headings of equal length in a row ("Options", "Section", "Sektion"; "abc", "xyz"): the writer compares prefixes, not lengths
+    for (p1, p2) in ((b"Section", b"Sektion"), (b"abc", b"xyz")):
+        d = Decl.__new__(Decl)
+        d.ops, d.objs, d.nvar, d.rng = [("kv", 0), ("kv", 1), ("new", 1)], {0: [], 1: [], 2: []}, 0, rng
+        d.used_ch, d.used_nm, d.kvs, d.inits, d.kinds, d.shape = {0: set(), 1: set(), 2: set()}, {0: set(), 1: set(), 2: set()}, KV_TABLES, {}, {}, "sub"
+        d.add_typed(1, "int", ord("k"), b"kk", share=False, init=("i0", 0))
+        d.ops.append(("new", 2))
+        d.add_typed(2, "int", ord("m"), b"mm", share=False, init=("i0", 0))
+        d.ops.append(("new", 0))
+        d.add_typed(0, "int", ord("f"), b"first", share=False, init=("i0", 0))
+        d.sub(0, 1, p1)
+        d.sub(0, 2, p2)
+        d.add_typed(0, "int", ord("l"), b"last", share=False, init=("i0", 0))
+        h = History(hid, d); hid += 1; out.append(h); h.tags.add("aimed-prefix-length")
+        h.parse(0, [b"prog", b"-f", b"1", b"--" + p1 + b":kk", b"2", b"--" + p2 + b":mm=3", b"-l", b"4", b"arg"]); roundtrip(h, rng, b"pl.ini"); h.end()
+    # values as iniparser writes them down: quotes, comments, empty strings, key case, CR LF
+    h = H(); h.tags.add("aimed-ini-values")
+    for (txt, exp) in ((b"[Options]\nstr = ''\n", {3: b""}), (b"[Options]\nstr = \"\"\n", {3: b""}), (b"[Options]\nstr =\n", {3: b""}),
+                       (b"[Options]\nstr = \"a;b\" tail\nint=0x10;c\nsize= 7 # c\nbool = Y\n", {3: b"a;b", 0: 16, 4: 7, 5: 1}),
+                       (b"[Options]\nstr = 'it is'\nsw = 12\n", {3: b"it is", 1: 12}), (b"[OPTIONS]\nINT = 9\n-Q = 3\n", {0: 9, 2: 3}),
+                       (b"[Options]\r\nint = 12\r\nstr = x y\r\n", {0: 12, 3: b"x y"}), (b"; c\n\n  [ Options ]  \n   choice   =   cd   \n\tdbl=2.5\n", {6: -7, 7: ("d", libc_strtod(b"2.5")[0])}),
+                       (b"[Options]\nint = 1\n-i = 2\n", "error"), (b"[Options]\nbool = 2\n", "error"), (b"[Options]\nsize = -1\n", "error")):
+        h.op("file %s %s" % (hx(b"v.ini"), hx(txt)))
+        h.op("load 0 %s" % hx(b"v.ini"), ("load", 0, exp))
+    h.end()
     # F-C17f (repaired 5918853): unset string followed by another option / as last item
     h = H(); h.tags.add("aimed-null-string")
     h.parse(0, [b"prog", b"-z", b"6"]); roundtrip(h, rng, b"ns.ini"); h.end()
@@ -1099,6 +1174,16 @@ def args_of(text):
     return text[i:] if i >= 0 else None
 
 
+def optstring_unwritten(h, idx):
+    """F-C17l: line idx of the history is a parse of an object none of whose options has a short name (sc_options_parse then
+    never writes to its local optstring) and the operation before it filled the stack with non-zero bytes"""
+    w = h.lines[idx].split()
+    if w[0] != "parse" or idx < 1 or not h.lines[idx - 1].startswith("dirty ") or h.lines[idx - 1].split()[1] == "0":
+        return False
+    o = int(w[1])
+    return not any(it.ch for it in h.decl.objs[o if o < 4 else o - 4])
+
+
 def oracle(ctx, h, impl):
     """property oracle on the implementation's output of one history; returns number of judged facts"""
     res = [l for l in impl if not l.startswith("EV") and not l.startswith("H ")]
@@ -1138,6 +1223,9 @@ def oracle(ctx, h, impl):
                 continue
             judged += 1
             sig = "parse:" + ("fail" if eret == -1 else "ok")
+            if optstring_unwritten(h, idx):
+                # F-C17l: no option of the object has a short name and the stack was filled by `dirty`
+                sig = "optstring-uninitialised:" + sig
             if eret != ret:
                 viol(sig + ":return", "sc_options_parse(%s) returned %s, the text denotes %s" % (b" ".join(argv)[:200], ret, eret), dict(argv=[hx(a) for a in argv]))
             elif epost is not None:
@@ -1147,9 +1235,14 @@ def oracle(ctx, h, impl):
                         break
         elif kind == "load":
             exp = chk[3]
+            coll = chk[4] if len(chk) > 4 and chk[4] else {"vars": (), "invalid_all_collide": False}
             judged += 1
             if exp == "error":
-                if ret != -1:
+                if ret != -1 and coll["invalid_all_collide"]:
+                    # F-C17k: every invalid entry sits in the dictionary slot of a later section heading and is skipped
+                    viol("key-section-collision:invalid-value-skipped", "sc_options_load returned %s on a file whose invalid value belongs to "
+                         "an entry named like a section of the file" % ret)
+                elif ret != -1:
                     viol("load:invalid-accepted", "sc_options_load returned %s on a file with an invalid value" % ret)
             elif exp is not None:
                 if ret != 0:
@@ -1157,6 +1250,10 @@ def oracle(ctx, h, impl):
                 else:
                     for v, x in exp.items():
                         same = dbl_close(post[v][1], x[1]) if isinstance(x, tuple) else post.get(v) == x
+                        if not same and v in coll["vars"]:
+                            viol("key-section-collision:value-not-loaded", "sc_options_load: variable %d is %r, the file says %r; the entry is named "
+                                 "like a section of the file (\"[a]\\nb = 1\\n[a:B]\")" % (v, post.get(v), x))
+                            break
                         if not same:
                             viol("load:value", "sc_options_load: variable %d is %r, the file says %r" % (v, post.get(v), x))
                             break
@@ -1190,6 +1287,7 @@ def oracle(ctx, h, impl):
                 for n, a in enumerate(last_args):
                     unsafe = unsafe or ini_unsafe(a, len(str(n)))
             fails = []
+            failed_items = []
             if r2 != 0:
                 fails.append("load of the saved file returned %s" % r2)
             if r3 != 0:
@@ -1207,6 +1305,7 @@ def oracle(ctx, h, impl):
                         same = a == b
                     if not same:
                         fails.append("%s option %s: saved %r, reloaded %r" % (it.ty, (it.name or bytes([it.ch])).decode("latin1"), a, b))
+                        failed_items.append(it)
                 if r4 == 0 and args_of(f1) != args_of(f2):
                     fails.append("argument list differs after the round trip")
                 kvstale = False
@@ -1232,10 +1331,15 @@ def oracle(ctx, h, impl):
                         if t is not None and decl.kvs[it.kv].get(t) != vars1.get(it.var):
                             stale = True
                 tiny = any(it.ty == "dbl" and libc_strtod(libc_fmt16(vars1[it.var][1]))[1] for it in items)
+                # F-C17k: every option that did not come back is saved under a key that is also a section heading of the file
+                headings = set(l[1:-1].lower() for l in f1.split(b"\n") if l.startswith(b"[") and l.endswith(b"]"))
+                collide = bool(failed_items) and all(saved_key(it) in headings for it in failed_items)
                 if unsafe:
                     key = "ini-unsafe-string:" + unsafe
                 elif tiny and r2 != 0:
                     key = "double-subnormal:reload-raises-ERANGE"
+                elif collide:
+                    key = "key-section-collision:option-not-restored"
                 elif stale:
                     key = "keyvalue-stale-copy:saved-text-differs-from-variable"
                 else:
@@ -1356,6 +1460,13 @@ def run(ctx):
         nguard[1] += sum(1 for g in guards.values() if not g)
         if h.hid in crashed:
             continue
+        for k in range(min(len(il), len(ml))):
+            if il[k] != ml[k] and k < len(h.lines) and optstring_unwritten(h, k) and re.sub(r" GETOPT_MODEL_(EVENTS|FINAL)$", "", ml[k]) == il[k]:
+                # F-C17l: getopt_long was handed an option string the declarations do not determine; the outcome of the parse
+                # itself is modelled from the recorded events and agrees
+                ctx.violation("optstring-uninitialised:getopt-trace", "history %d: getopt_long did not scan `%s` as the declared options say "
+                              "(no option has a short name: optstring is never written)" % (h.hid, h.lines[k][:160]), hist_to_json(h))
+                ml[k] = il[k]
         if len(il) != len(ml) or any(a != b for a, b in zip(il, ml)):
             ndis += 1
             k = next((i for i, (a, b) in enumerate(zip(il, ml)) if a != b), min(len(il), len(ml)))
